@@ -46,6 +46,7 @@ class RngLayer(object):
         self.stats = stats if stats is not None else {}
         self.draws = 0
         self.edges = 0
+        self.subs = []      # substitutions made since the owner last cleared the list
         self._saved = None
 
     def bump(self, key, n=1):
@@ -74,7 +75,10 @@ class RngLayer(object):
                 layer.edges += 1
                 layer.bump('F4.random_sample')
                 if size is None:
-                    return layer.rng.choice([0.0, top])
+                    pick = layer.rng.choice([0.0, top])
+                    layer.subs.append(('random_sample', pick))
+                    return pick
+                layer.subs.append(('random_sample', 'array'))
                 return edge_float_array(val)
             return val
 
@@ -96,7 +100,9 @@ class RngLayer(object):
                 layer.edges += 1
                 layer.bump('F4.randint')
                 lo, hi = (0, low) if high is None else (low, high)
-                return type(val)(layer.rng.choice([lo, hi - 1]))
+                pick = layer.rng.choice(['low', 'top'])
+                layer.subs.append(('randint', pick, lo, hi))
+                return type(val)(lo if pick == 'low' else hi - 1)
             return val
 
         def choice(seq):
@@ -105,7 +111,9 @@ class RngLayer(object):
             if layer.mode == 'edge' and layer.rng.random() < layer.p:
                 layer.edges += 1
                 layer.bump('F4.choice')
-                return seq[layer.rng.choice([0, len(seq) - 1])]
+                pick = layer.rng.choice([0, len(seq) - 1])
+                layer.subs.append(('choice', pick))
+                return seq[pick]
             return val
 
         np.random.random_sample = random_sample
